@@ -75,6 +75,7 @@ type c02Cred struct {
 	Parts    []c02CK
 	Full     string
 	Expired  bool
+	Unusable bool // expired credential that is nevertheless honoured unmodified: lifetime enforcement (C09) is broken, variants are not judged
 	Who      vfIdentity
 	Tok      c02Tokens
 	Base     c02Ident // what the unmodified credential yields at its issuer (sessions / tickets)
@@ -177,7 +178,9 @@ func c02Probe(w *vfWorld, in *c02Inst, cks []c02CK, full bool) c02Outcome {
 
 type c02SecretForm struct {
 	Name string
-	Make func(r *rand.Rand) string
+	// Make returns a secret and a sibling secret of the same form that differs from it in its LAST byte only
+	// (a key that is silently shortened makes the two equivalent).
+	Make func(r *rand.Rand) (secret, sibling string)
 }
 
 func c02RandBytes(r *rand.Rand, n int) []byte {
@@ -201,17 +204,36 @@ const c02Alnum = "abcdefghijklmnopqrstuvwxyzABCDEFGHIJKLMNOPQRSTUVWXYZ0123456789
 // raw secrets carry a '#' so that they cannot be mistaken for base64; "raw32-alnum" is the documented quirk: 32
 // base64url characters decode to 24 bytes, which the proxy then uses as the AES key (the HMAC key stays the string).
 func c02SecretForms() []c02SecretForm {
-	raw := func(n int) func(r *rand.Rand) string {
-		return func(r *rand.Rand) string { s := []byte(c02RandStr(r, n, c02Alnum)); s[r.Intn(n)] = '#'; return string(s) }
+	other := func(c byte, r *rand.Rand) byte {
+		for {
+			if x := c02Alnum[r.Intn(len(c02Alnum))]; x != c {
+				return x
+			}
+		}
+	}
+	raw := func(n int, hash bool) func(r *rand.Rand) (string, string) {
+		return func(r *rand.Rand) (string, string) {
+			s := []byte(c02RandStr(r, n, c02Alnum))
+			if hash {
+				s[r.Intn(n-1)] = '#'
+			}
+			t := append([]byte{}, s...)
+			t[n-1] = other(s[n-1], r)
+			return string(s), string(t)
+		}
+	}
+	b64 := func(n int, enc *base64.Encoding) func(r *rand.Rand) (string, string) {
+		return func(r *rand.Rand) (string, string) {
+			b := c02RandBytes(r, n)
+			t := append([]byte{}, b...)
+			t[n-1] ^= 0x5a
+			return enc.EncodeToString(b), enc.EncodeToString(t)
+		}
 	}
 	return []c02SecretForm{
-		{"raw16", raw(16)}, {"raw24", raw(24)}, {"raw32", raw(32)},
-		{"raw32-alnum", func(r *rand.Rand) string { return c02RandStr(r, 32, c02Alnum) }},
-		{"b64url16-padded", func(r *rand.Rand) string { return base64.URLEncoding.EncodeToString(c02RandBytes(r, 16)) }},
-		{"b64url16-unpadded", func(r *rand.Rand) string { return base64.RawURLEncoding.EncodeToString(c02RandBytes(r, 16)) }},
-		{"b64url24", func(r *rand.Rand) string { return base64.URLEncoding.EncodeToString(c02RandBytes(r, 24)) }},
-		{"b64url32-padded", func(r *rand.Rand) string { return base64.URLEncoding.EncodeToString(c02RandBytes(r, 32)) }},
-		{"b64url32-unpadded", func(r *rand.Rand) string { return base64.RawURLEncoding.EncodeToString(c02RandBytes(r, 32)) }},
+		{"raw16", raw(16, true)}, {"raw24", raw(24, true)}, {"raw32", raw(32, true)}, {"raw32-alnum", raw(32, false)},
+		{"b64url16-padded", b64(16, base64.URLEncoding)}, {"b64url16-unpadded", b64(16, base64.RawURLEncoding)}, {"b64url24", b64(24, base64.URLEncoding)},
+		{"b64url32-padded", b64(32, base64.URLEncoding)}, {"b64url32-unpadded", b64(32, base64.RawURLEncoding)},
 	}
 }
 
@@ -433,7 +455,10 @@ func (c *c02Cell) baseline(cr *c02Cred) {
 	out := c02Probe(c.w, cr.Owner, cr.Parts, true)
 	if cr.Expired {
 		if out.Accepted {
-			c.run.T.Fatalf("C02 rig: session %s issued 2 lifetimes ago is still accepted (lifetime enforcement is C09's subject); cannot be used as a must-reject base", cr.Label)
+			// lifetime enforcement is C09's subject: not a C02 verdict, but this base cannot serve as "must reject"
+			cr.Unusable = true
+			c.run.Count("expired_base_honoured_unmodified", 1)
+			fmt.Printf("NOTE property=C02 %s %s issued two lifetimes ago is honoured unmodified (C09's subject); its variants are not judged\n", cr.Kind, cr.Label)
 		}
 		return
 	}
@@ -521,6 +546,9 @@ type c02Job struct {
 // allowed returns the identities the oracle permits for this job (empty = must be rejected).
 func (j *c02Job) allowed() []c02Ident {
 	var out []c02Ident
+	if j.V.Must {
+		return nil
+	}
 	for _, s := range j.Srcs {
 		if s.Owner == j.Target && !s.Expired {
 			if j.CSRF != nil {
@@ -568,6 +596,13 @@ func (c *c02Cell) runJobs(size string, jobs []c02Job) {
 			srcs = append(srcs, l+")")
 		}
 		extra := map[string]interface{}{"mutation_class": j.V.Class, "position": j.V.Bucket, "note": j.V.Note, "derived_from": srcs, "observed_status": out.Status}
+		if out.Accepted { // only needed for witnesses: the unmodified credentials the variant was made from, and who issued them
+			orig := map[string]interface{}{}
+			for _, s := range j.Srcs {
+				orig[s.Label] = map[string]interface{}{"cookie_header": c02Header(s.Parts), "issued_by_flags": s.Owner.P.Flags, "issued_to": s.Who.Email, "issued_two_lifetimes_ago": s.Expired}
+			}
+			extra["unmodified_sources"] = orig
+		}
 		if req != nil {
 			extra["request"] = req
 			extra["note_csrf"] = "state of login " + j.CSRF.Label + " with a fresh authorization code for the same authorization request"
@@ -580,13 +615,11 @@ func (c *c02Cell) runJobs(size string, jobs []c02Job) {
 		default:
 			ok := false
 			for _, a := range allowed {
-				if j.CSRF != nil {
-					o := out.Id
-					o.AccessToken, o.IDToken = "", ""
-					ok = ok || o == a
-				} else {
-					ok = ok || out.Id == a
+				o := out.Id
+				if j.CSRF != nil || out.Via == "userinfo" { // a new login has new tokens; /oauth2/userinfo shows none
+					o.AccessToken, o.IDToken, a.AccessToken, a.IDToken = "", "", "", ""
 				}
+				ok = ok || o == a
 			}
 			extra["observed_identity"] = out.Id.short()
 			switch {
@@ -637,11 +670,7 @@ func (c *c02Cell) runJobs(size string, jobs []c02Job) {
 
 func (c *c02Cell) work() {
 	run, g := c.run, c.g
-	secret := g.Form.Make(c.rng)
-	other := g.Form.Make(c.rng)
-	for other == secret {
-		other = g.Form.Make(c.rng)
-	}
+	secret, other := g.Form.Make(c.rng)
 	otherStore := map[string]string{"cookie": "redis", "redis": "cookie"}[g.Store]
 	P := c.newInst("issuer", g.Store, secret, g.CookieName)
 	S := c.newInst("other-secret", g.Store, other, g.CookieName)
@@ -668,7 +697,7 @@ func (c *c02Cell) work() {
 		size := c02Sizes[sizeName]
 		userA, userB := c02Identity(c.rng, "a", 0), c02Identity(c.rng, "b", 0)
 		// calibrate the bulk so that the cookie store needs exactly size.Parts cookies
-		bulk := c.rng.Intn(900)
+		bulk := c.rng.Intn(500)
 		if size.Parts > 1 {
 			bulk = (size.Lo+size.Hi)/2*100/178 - 720
 		}
@@ -754,6 +783,9 @@ func (c *c02Cell) work() {
 			}))
 		}
 		add(P, []*c02Cred{X}, nil, c.forged(X, P, nowS, true, otherKeys)...)
+		add(P, []*c02Cred{A1}, nil, c.unparsable(A1, P)...)
+		add(P, []*c02Cred{X}, nil, c.unparsable(X, P)...)
+		add(P, []*c02Cred{csrf1}, csrf1, c.unparsable(csrf1, P)...)
 		// --- cookie names that swallow the head of the value (the MAC input has no delimiters)
 		for _, k := range g.ShiftWidths {
 			k := k
@@ -790,8 +822,21 @@ func (c *c02Cell) work() {
 			run.T.Fatalf("C02 rig: unmodified CSRF cookie does not complete its login: %+v", out)
 		}
 		if out, _ := c.presentCSRF(P, csrfX, csrfX.Parts); out.Accepted {
-			run.T.Fatalf("C02 rig: CSRF cookie issued two lifetimes ago still completes a login; cannot be used as a must-reject base")
+			csrfX.Unusable = true
+			run.Count("expired_base_honoured_unmodified", 1)
+			fmt.Printf("NOTE property=C02 CSRF cookie issued two lifetimes ago still completes a login unmodified (C09's subject); its variants are not judged\n")
 		}
+		kept := jobs[:0]
+		for _, j := range jobs {
+			skip := false
+			for _, s := range j.Srcs {
+				skip = skip || s.Unusable
+			}
+			if !skip {
+				kept = append(kept, j)
+			}
+		}
+		jobs = kept
 		for i := range jobs {
 			jobs[i].fullRow = jobs[i].V.Class != "subst-alphabet" && jobs[i].V.Class != "subst-separator" && jobs[i].V.Class != "subst-foreign" &&
 				jobs[i].V.Class != "truncate-part" && jobs[i].V.Class != "truncate-joined" && jobs[i].V.Class != "forged-signature"
@@ -906,6 +951,36 @@ func (c *c02Cell) forged(cr *c02Cred, t *c02Inst, nowS int64, retime bool, other
 				return c02Like(names, t.Name, s)
 			}})
 		}
+	}
+	return out
+}
+
+// unparsable: the value of cr, correctly signed WITH THE INSTANCE'S OWN KEY, but with a timestamp that no reading can
+// interpret as a number. The proxy stamps every credential with a decimal Unix time, so it cannot have produced these,
+// and a credential whose issue time cannot be read cannot be inside its lifetime: must be rejected.
+// (Forms that some lenient number parser would read — leading '+', leading zeros, surrounding blanks, "1e10", "0x..",
+// "12.5", "NaN" — are deliberately not included: accepting those would be harmless.)
+func (c *c02Cell) unparsable(cr *c02Cred, t *c02Inst) []c02Variant {
+	f := c02Split3(cr.Full)
+	if !f.OK {
+		return nil
+	}
+	macName := t.Name
+	if cr.Kind == "csrf" {
+		macName = cr.Parts[0].Name
+	}
+	var out []c02Variant
+	names := cr.Parts
+	vt := strings.TrimRight(f.Value, "=")
+	for label, ts := range map[string]string{"empty": "", "alpha": "abcdefghij", "digits-then-alpha": f.TS[:5] + "abcde", "minus-only": "-", "inner-space": f.TS[:5] + " " + f.TS[5:],
+		"two-numbers": f.TS + "," + f.TS, "value-tail": vt[len(vt)-4:] + "x" + f.TS} {
+		s := f.Value + "|" + ts + "|" + c02Sig(t.Secret, macName, f.Value, ts)
+		out = append(out, c02Variant{Must: true, Class: "unparsable-timestamp-signed-with-instance-key", Bucket: label, Note: fmt.Sprintf("timestamp %q, complete correct MAC", ts), Build: func() []c02CK {
+			if len(names) == 1 {
+				return []c02CK{{names[0].Name, s}}
+			}
+			return c02Like(names, t.Name, s)
+		}})
 	}
 	return out
 }
@@ -1036,6 +1111,10 @@ func TestVerif_C02(t *testing.T) {
 	run.Extra("accepted_as_exactly_the_issued_session", map[string]interface{}{"by_class_and_position": c02AccAll, "examples": c02AccEx})
 	c02AccMu.Unlock()
 	run.Finish(int64(run.Env.Pick(40000, 400000)), run.Env.Pick(400, 2000))
+	if run.Violations() == 0 && run.Counter("expired_base_honoured_unmodified") > 0 {
+		fmt.Printf("INCONCLUSIVE property=C02 reason=%d expired credentials are honoured unmodified (lifetime enforcement, C09): the expired must-reject bases could not be used\n", run.Counter("expired_base_honoured_unmodified"))
+		t.Fail()
+	}
 	if run.Violations() == 0 && (run.Counter("accepted_identical") == 0 || run.Counter("must_reject_variants") == 0 || run.Counter("opacity_values_store-value") == 0) {
 		fmt.Printf("INCONCLUSIVE property=C02 reason=a half of the oracle never fired (accepted-identical=%d, must-reject=%d, store values=%d)\n",
 			run.Counter("accepted_identical"), run.Counter("must_reject_variants"), run.Counter("opacity_values_store-value"))
